@@ -3,6 +3,5 @@ CONSTANTS
   BoundedWalk = TRUE
   MaxLinkMaps = 4
   NNodes = 2
-INVARIANTS Total NoDevOpen WalkBounded
-PROPERTY Terminates
+INVARIANTS Total NoDevOpen WalkBounded Emit
 CHECK_DEADLOCK FALSE
